@@ -5,6 +5,7 @@ package collection
 
 import (
 	"fmt"
+	"math"
 	"sort"
 	"sync"
 	"testing"
@@ -98,6 +99,15 @@ type c10Pending struct {
 // still be handed over by Drain.
 const c10Far = 1 << 30
 
+// c10S: a value for a failure message, cut to a readable length (bulk histories hold thousands of keys).
+func c10S(x any) string {
+	s := fmt.Sprint(x)
+	if len(s) > 600 {
+		s = s[:600] + fmt.Sprintf(" ...(%d more bytes)", len(s)-600)
+	}
+	return s
+}
+
 func c10Val(v any) int {
 	if v == nil {
 		return -1
@@ -170,6 +180,19 @@ func (ks *c10Keys) index(k any) int {
 	return ks.back[k]
 }
 
+// c10BadDelay: the non-positive delay of a badset/badmove op: M = 0 zero, -1 minus one interval,
+// -2 the most negative Duration, -3 minus one nanosecond.
+func c10BadDelay(o c10Op, iv time.Duration, classes map[string]bool) time.Duration {
+	switch o.M {
+	case -2:
+		classes["invalid-delay-min-int64"] = true
+		return time.Duration(math.MinInt64)
+	case -3:
+		return -time.Nanosecond
+	}
+	return time.Duration(o.M) * iv
+}
+
 func c10Delay(o c10Op, iv time.Duration) time.Duration {
 	d := time.Duration(o.M) * iv
 	if o.Half {
@@ -180,7 +203,11 @@ func c10Delay(o c10Op, iv time.Duration) time.Duration {
 
 // c10Interp runs the op list against a real wheel inside a bubble and against
 // the reference model {key -> (value, dueTick)}.
-func c10Interp(t *testing.T, c c10Case) (v kit.Verdict) {
+func c10Interp(t *testing.T, c c10Case) (v kit.Verdict) { return c10InterpP(t, c, nil) }
+
+// c10InterpP: probe (may be nil) is called with the wheel after every operation, when the
+// wheel is quiescent; it may add class labels only (never a verdict).
+func c10InterpP(t *testing.T, c c10Case, probe func(w *TimingWheel, classes map[string]bool)) (v kit.Verdict) {
 	var fail string
 	nontrivial := false
 	classes := map[string]bool{}
@@ -230,6 +257,7 @@ func c10Interp(t *testing.T, c c10Case) (v kit.Verdict) {
 			}
 		}
 		stopped, drained := false, false
+		quiescent := true // the previous operation waited for the wheel to become quiescent
 		take := func() []c10Fire {
 			mu.Lock()
 			defer mu.Unlock()
@@ -246,6 +274,10 @@ func c10Interp(t *testing.T, c c10Case) (v kit.Verdict) {
 		}
 		for i, o := range c10Expand(c.Ops) {
 			what := fmt.Sprintf("op %d %+v (ticks=%d)", i, o, ticks)
+			if probe != nil && quiescent {
+				probe(w, classes)
+			}
+			quiescent = !o.NW
 			switch o.Kind {
 			case "set", "move", "remove":
 				var err error
@@ -325,13 +357,13 @@ func c10Interp(t *testing.T, c c10Case) (v kit.Verdict) {
 					if o.M > 0 {
 						err = w.SetTimer(nil, o.Val, time.Duration(o.M)*iv)
 					} else {
-						err = w.SetTimer(ks.of(o.Key), o.Val, time.Duration(o.M)*iv)
+						err = w.SetTimer(ks.of(o.Key), o.Val, c10BadDelay(o, iv, classes))
 					}
 				case "badmove":
 					if o.M > 0 {
 						err = w.MoveTimer(nil, time.Duration(o.M)*iv)
 					} else {
-						err = w.MoveTimer(ks.of(o.Key), time.Duration(o.M)*iv)
+						err = w.MoveTimer(ks.of(o.Key), c10BadDelay(o, iv, classes))
 					}
 				case "badremove":
 					err = w.RemoveTimer(nil)
@@ -369,7 +401,7 @@ func c10Interp(t *testing.T, c c10Case) (v kit.Verdict) {
 								overdue += fmt.Sprintf(" key %d due %d", k, p.due)
 							}
 						}
-						fail = fmt.Sprintf("%s: at tick %d executed %v, model expects %v (still pending in model: %v)%s", what, ticks, got, want, model, overdue)
+						fail = fmt.Sprintf("%s: at tick %d executed %v, model expects %v (still pending in model: %v)%s", what, ticks, c10S(got), c10S(want), c10S(model), c10S(overdue))
 						return
 					}
 					if len(got) > 0 {
@@ -430,7 +462,7 @@ func c10Interp(t *testing.T, c c10Case) (v kit.Verdict) {
 					sort.Slice(got, func(a, b int) bool { return got[a].key < got[b].key })
 					sort.Slice(want, func(a, b int) bool { return want[a].key < want[b].key })
 					if fmt.Sprint(got) != fmt.Sprint(want) {
-						fail = fmt.Sprintf("%s: drained %v, model pending %v", what, got, want)
+						fail = fmt.Sprintf("%s: drained %v, model pending %v", what, c10S(got), c10S(want))
 						return
 					}
 					if len(want) > 0 {
@@ -456,6 +488,9 @@ func c10Interp(t *testing.T, c c10Case) (v kit.Verdict) {
 					return
 				}
 			}
+		}
+		if probe != nil && quiescent {
+			probe(w, classes)
 		}
 		// horizon: every pending task must still fire exactly at its tick
 		if !stopped {
@@ -491,7 +526,7 @@ func c10Interp(t *testing.T, c c10Case) (v kit.Verdict) {
 				sort.Slice(got, func(a, b int) bool { return got[a].key < got[b].key })
 				sort.Slice(want, func(a, b int) bool { return want[a].key < want[b].key })
 				if fmt.Sprint(got) != fmt.Sprint(want) {
-					fail = fmt.Sprintf("horizon: at tick %d executed %v, model expects %v (model pending %v)", ticks, got, want, model)
+					fail = fmt.Sprintf("horizon: at tick %d executed %v, model expects %v (model pending %v)", ticks, c10S(got), c10S(want), c10S(model))
 					return
 				}
 				if len(got) > 0 {
@@ -515,7 +550,7 @@ func c10Interp(t *testing.T, c c10Case) (v kit.Verdict) {
 				sort.Slice(got, func(a, b int) bool { return got[a].key < got[b].key })
 				sort.Slice(want, func(a, b int) bool { return want[a].key < want[b].key })
 				if err != nil || fmt.Sprint(got) != fmt.Sprint(want) {
-					fail = fmt.Sprintf("horizon: final drain (err %v) handed over %v, model still pending %v", err, got, want)
+					fail = fmt.Sprintf("horizon: final drain (err %v) handed over %v, model still pending %v", err, c10S(got), c10S(want))
 					return
 				}
 				classes["far-delay-drained"] = true
@@ -614,7 +649,7 @@ func c10Gen(rt *rapid.T) c10Case {
 			o.N = rapid.IntRange(1, c.Slots+2).Draw(rt, "n")
 		case "badset", "badmove":
 			o.Key = rapid.IntRange(0, nkeys-1).Draw(rt, "key")
-			o.M = rapid.SampledFrom([]int{0, -1, 1}).Draw(rt, "m") // 1 => nil key
+			o.M = rapid.SampledFrom([]int{0, -1, 1, -2, -3}).Draw(rt, "m") // 1 => nil key
 		case "drain":
 			drained = true
 			if rapid.IntRange(0, 2).Draw(rt, "slowdrain") == 0 {
@@ -717,12 +752,23 @@ func c10BulkGen(rt *rapid.T) c10Case {
 	c := c10Case{Slots: rapid.IntRange(20, 120).Draw(rt, "slots")}
 	long := rapid.IntRange(3000, 6000).Draw(rt, "long")
 	pend := rapid.IntRange(0, 1600).Draw(rt, "pending")
+	churn := rapid.IntRange(8500, 12500).Draw(rt, "churn")
+	// two-generation histories: with >= 1000 tasks pending throughout, the index writes new keys
+	// into its second map after 10001 deletions and folds that map back after 10000 more
+	twoGen := rapid.IntRange(0, 3).Draw(rt, "twogen") == 0
+	if twoGen {
+		pend = rapid.IntRange(1000, 1600).Draw(rt, "pending2")
+		churn = rapid.IntRange(21500, 25000).Draw(rt, "churn2")
+	}
 	if pend > 0 {
 		c.Ops = append(c.Ops, c10Op{Kind: "bset", Key: 0, N: pend, Val: 1, M: long})
 	}
-	churn := rapid.IntRange(8500, 12500).Draw(rt, "churn")
 	block := rapid.IntRange(400, 1500).Draw(rt, "block")
 	key := 100000
+	// keys the tail addresses: the "fresh" ones set after the churn and the "mid" ones set at
+	// random points of the churn with a long delay (they live through the index's reorganisations)
+	var addr []int
+	midKey, midTotal := 300000, 0
 	for done := 0; done < churn; done += block {
 		if rapid.IntRange(0, 3).Draw(rt, "how") == 0 {
 			c.Ops = append(c.Ops, c10Op{Kind: "bset", Key: key, N: block, Val: 2, M: 5}, c10Op{Kind: "bremove", Key: key, N: block})
@@ -730,9 +776,21 @@ func c10BulkGen(rt *rapid.T) c10Case {
 			c.Ops = append(c.Ops, c10Op{Kind: "bset", Key: key, N: block, Val: 2, M: 1}, c10Op{Kind: "tick", N: 1})
 		}
 		key += block
+		if midTotal < 300 && rapid.IntRange(0, 3).Draw(rt, "mid") == 0 {
+			n := rapid.IntRange(1, 40).Draw(rt, "midn")
+			c.Ops = append(c.Ops, c10Op{Kind: "bset", Key: midKey, N: n, Val: 5, M: long + rapid.IntRange(-100, 100).Draw(rt, "midd")})
+			for k := 0; k < n; k++ {
+				addr = append(addr, midKey+k)
+			}
+			midKey += n
+			midTotal += n
+		}
 	}
 	fresh := rapid.IntRange(1, 60).Draw(rt, "fresh")
 	c.Ops = append(c.Ops, c10Op{Kind: "bset", Key: 500000, N: fresh, Val: 3, M: rapid.IntRange(20, 200).Draw(rt, "freshdelay")})
+	for k := 0; k < fresh; k++ {
+		addr = append(addr, 500000+k)
+	}
 	if pend > 0 {
 		drop := rapid.IntRange(0, pend).Draw(rt, "drop")
 		if drop > 0 {
@@ -740,8 +798,11 @@ func c10BulkGen(rt *rapid.T) c10Case {
 		}
 	}
 	n := rapid.IntRange(1, 12).Draw(rt, "tail")
+	if midTotal > 0 {
+		n += rapid.IntRange(1, 12).Draw(rt, "tail2")
+	}
 	for i := 0; i < n; i++ {
-		k := 500000 + rapid.IntRange(0, fresh-1).Draw(rt, "fk")
+		k := addr[rapid.IntRange(0, len(addr)-1).Draw(rt, "fk")]
 		switch rapid.IntRange(0, 4).Draw(rt, "tk") {
 		case 0:
 			c.Ops = append(c.Ops, c10Op{Kind: "remove", Key: k})
@@ -758,10 +819,34 @@ func c10BulkGen(rt *rapid.T) c10Case {
 	return c
 }
 
+// c10IndexProbe labels (never judges) what happened inside the wheel's key index: the harness
+// is in-package, so it can see the two maps of the SafeMap while the wheel is quiescent.
+func c10IndexProbe() func(w *TimingWheel, classes map[string]bool) {
+	lastOld, lastNew := 0, 0
+	return func(w *TimingWheel, classes map[string]bool) {
+		m := w.timers
+		m.lock.RLock()
+		dOld, dNew, nNew := m.deletionOld, m.deletionNew, len(m.dirtyNew)
+		m.lock.RUnlock()
+		if nNew > 0 {
+			classes["index-second-map-in-use"] = true
+		}
+		if dOld < lastOld {
+			classes["index-old-map-compacted"] = true
+			if lastNew > 0 || nNew > 0 {
+				classes["index-old-map-compacted-with-second-map-live"] = true
+			}
+		} else if dNew < lastNew {
+			classes["index-second-map-folded-back"] = true
+		}
+		lastOld, lastNew = dOld, dNew
+	}
+}
+
 func TestVerif_C10_bulk(t *testing.T) {
 	kit.Run(t, "C10", "wheel-bulk", kit.Opts{Quick: 40, Thorough: 1600}, c10BulkGen,
 		func(c c10Case) kit.Verdict {
-			v := c10Interp(t, c)
+			v := c10InterpP(t, c, c10IndexProbe())
 			v.NonTrivial = v.Fail == ""
 			return v
 		})
